@@ -62,6 +62,7 @@ def shape(repo: str) -> dict:
         raise Untranslatable('AttributeCollection.parse both loops and calls itself: shape not recognised')
     if not calls and not loops:
         raise Untranslatable('AttributeCollection.parse neither loops nor calls itself: shape not recognised')
+    stops = ('return self',)
     if calls:
         for c in calls:
             if id(c) not in returned:
@@ -77,6 +78,35 @@ def shape(repo: str) -> dict:
         if not (isinstance(t, ast.Name) and t.id == 'data'):
             raise Untranslatable('iterative AttributeCollection.parse: the loop is not `while data:`')
         recursive = False
+        # the loop either holds the per-attribute code itself, or is exactly
+        #   left = self._parse_one(data, negotiated); if left is None: break; data = left
+        helper_calls = [n for n in ast.walk(fn) if isinstance(n, ast.Call) and isinstance(n.func, ast.Attribute)
+                        and n.func.attr == '_parse_one']
+        if helper_calls:
+            want = ['left = self._parse_one(data, negotiated)', 'if left is None:\n    break', 'data = left']
+            got = [ast.unparse(x) for x in whiles[0].body]
+            if got != want or len(helper_calls) != 1:
+                raise Untranslatable(f'iterative AttributeCollection.parse: unrecognised loop body {got}')
+            tail = [ast.unparse(x) for x in fn.body if not isinstance(x, ast.While) and not isinstance(x, ast.Expr)]
+            if tail != ['return self']:
+                raise Untranslatable(f'iterative AttributeCollection.parse: unexpected statements around the loop {tail}')
+            helpers = [n for n in klass[0].body if isinstance(n, ast.FunctionDef) and n.name == '_parse_one']
+            if len(helpers) != 1 or [a.arg for a in helpers[0].args.args] != ['self', 'data', 'negotiated']:
+                raise Untranslatable('AttributeCollection._parse_one not found or with another signature')
+            fn = helpers[0]
+            bad = [n for n in ast.walk(fn) if isinstance(n, (ast.While, ast.For, ast.FunctionDef, ast.AsyncFunctionDef)) and n is not fn]
+            inner = [n for n in ast.walk(fn) if isinstance(n, ast.Call) and isinstance(n.func, ast.Attribute)
+                     and n.func.attr in ('parse', '_parse_one') and isinstance(n.func.value, (ast.Name, ast.Call))
+                     and (getattr(n.func.value, 'id', '') in ('self', 'cls', 'AttributeCollection') or isinstance(n.func.value, ast.Call))]
+            if bad or inner:
+                raise Untranslatable('AttributeCollection._parse_one loops or calls the walk again')
+            # it returns what follows the attribute (`left`) or None
+            for n in ast.walk(fn):
+                if isinstance(n, ast.Return) and ast.unparse(n) not in ('return left', 'return None'):
+                    raise Untranslatable(f'line {n.lineno}: _parse_one returns something else than `left` or None')
+            stops = ('return None',)
+        else:
+            stops = ('return self', 'break')
     # header sizes: the assignments `offset = <constant>`
     offsets = sorted({n.value.value for n in ast.walk(fn)
                       if isinstance(n, ast.Assign) and len(n.targets) == 1 and isinstance(n.targets[0], ast.Name)
@@ -92,7 +122,7 @@ def shape(repo: str) -> dict:
                     and isinstance(s.value.func, ast.Attribute) and s.value.func.attr == 'add'
                     and s.value.args and isinstance(s.value.args[0], ast.Call)
                     and getattr(s.value.args[0].func, 'id', '') == 'TreatAsWithdraw']
-            rets = [s for s in body if isinstance(s, ast.Return) and isinstance(s.value, ast.Name) and s.value.id == 'self']
+            rets = [s for s in body if ast.unparse(s) in stops]
             if adds and rets:
                 guards += 1
     if guards != 2:
@@ -110,7 +140,7 @@ def shape(repo: str) -> dict:
     overrun_stops = False
     if overrun:
         body = overrun[0].body
-        ok = (len(body) == 2 and ast.unparse(body[0]).startswith('self.add(TreatAsWithdraw(') and ast.unparse(body[1]) in ('return self', 'break')
+        ok = (len(body) == 2 and ast.unparse(body[0]).startswith('self.add(TreatAsWithdraw(') and ast.unparse(body[1]) in stops
               and not overrun[0].orelse)
         if not ok:
             raise Untranslatable('the overrun test of AttributeCollection.parse does something else than TreatAsWithdraw + stop')
@@ -118,6 +148,42 @@ def shape(repo: str) -> dict:
             raise Untranslatable('the overrun test is not between `data = data[offset:]` and `left = data[length:]`')
         overrun_stops = True
     return {'recursive': recursive, 'min': offsets[0], 'ext': offsets[1], 'self_calls': len(calls), 'overrun_stops': overrun_stops}
+
+
+OPSRC = 'src/exabgp/bgp/message/operational.py'
+
+
+def advisory_shape(repo: str) -> bool:
+    """Advisory.ADM / Advisory.ASM __init__: does the constructor accept the memoryview slice the decoder hands it?
+    False: `if isinstance(advisory, bytes): utf8 = advisory  else: utf8 = advisory.encode('utf-8')` (a memoryview has no
+    encode -> AttributeError).  True: `if isinstance(advisory, str): utf8 = advisory.encode(...) else: utf8 = bytes(advisory)`.
+    Anything else raises."""
+    tree = ast.parse(open(os.path.join(repo, OPSRC)).read())
+    adv = [n for n in tree.body if isinstance(n, ast.ClassDef) and n.name == 'Advisory']
+    if len(adv) != 1:
+        raise Untranslatable('class Advisory not found in operational.py')
+    verdicts = []
+    for name in ('ADM', 'ASM'):
+        ks = [n for n in adv[0].body if isinstance(n, ast.ClassDef) and n.name == name]
+        if len(ks) != 1:
+            raise Untranslatable(f'Advisory.{name} not found')
+        inits = [n for n in ks[0].body if isinstance(n, ast.FunctionDef) and n.name == '__init__']
+        if len(inits) != 1:
+            raise Untranslatable(f'Advisory.{name}.__init__ not found')
+        ifs = [n for n in inits[0].body if isinstance(n, ast.If) and ast.unparse(n.test).startswith('isinstance(advisory,')]
+        if len(ifs) != 1 or len(ifs[0].body) != 1 or len(ifs[0].orelse) != 1:
+            raise Untranslatable(f'Advisory.{name}.__init__: the isinstance(advisory, ...) test is not recognised')
+        test = ast.unparse(ifs[0].test)
+        then, other = ast.unparse(ifs[0].body[0]), ast.unparse(ifs[0].orelse[0])
+        if test == 'isinstance(advisory, bytes)' and then == 'utf8 = advisory' and other == "utf8 = advisory.encode('utf-8')":
+            verdicts.append(False)
+        elif test == 'isinstance(advisory, str)' and then == "utf8 = advisory.encode('utf-8')" and other == 'utf8 = bytes(advisory)':
+            verdicts.append(True)
+        else:
+            raise Untranslatable(f'Advisory.{name}.__init__: unrecognised conversion `{test}` / `{then}` / `{other}`')
+    if verdicts[0] != verdicts[1]:
+        raise Untranslatable('Advisory.ADM and Advisory.ASM convert their advisory differently')
+    return verdicts[0]
 
 
 def _int(v, what):
@@ -201,6 +267,7 @@ def reflect(repo: str) -> dict:
 def generate(repo: str) -> str:
     sh = shape(repo)
     rf = reflect(repo)
+    adv = advisory_shape(repo)
     L = ['(* GENERATED by translate/t12_parse_shape.py - do not edit *)',
          'From Coq Require Import ZArith Bool List.', 'Import ListNotations.', 'Open Scope Z_scope.',
          f'(* AttributeCollection.parse: {"calls itself on `left` once per attribute (" + str(sh["self_calls"]) + " tail calls), no loop" if sh["recursive"] else "one `while data:` loop, no call to itself"} *)',
@@ -218,6 +285,8 @@ def generate(repo: str) -> str:
         L.append(f'  if aid =? {aid} then Some (mkRow {r["flag"]} {r["optional"]} {r["taw"]} {r["discard"]} {r["nodup"]} {r["vzero"]}) (* {r["name"]} *) else')
     L.append('  None.')
     L.append('Definition registered_aids : list Z := [' + '; '.join(str(a) for a in sorted(rf['rows'])) + '].')
+    L.append('(* Advisory.ADM/ASM.__init__ accepts the buffer slice Operational.unpack_message passes (false: AttributeError on a memoryview) *)')
+    L.append(f'Definition ADVISORY_ACCEPTS_BUFFER : bool := {"true" if adv else "false"}.')
     L.append('(* Operational.registered_operational: code -> category (1 advisory, 2 query, 3 counter, 0 other) *)')
     L.append('Definition operational_table : list (Z * Z) := [' + '; '.join(f'({c}, {k})' for c, k in rf['ops']) + '].')
     for k in ('OPEN_MIN', 'OPEN_FIXED', 'BGP_4', 'EXTENDED_LENGTH', 'P_AUTH', 'P_CAPS', 'MIN_PARAM', 'MIN_EXT_PARAM',
